@@ -206,9 +206,14 @@ def run_case(case, ctx):
                 if a == b:
                     continue
                 # detailed balance k(a<-b)/k(b<-a) = exp(-(E_a-E_b)/kT)
-                if RR[a, b] > 1e-12 * sc and RR[b, a] > 1e-12 * sc:
-                    x = -(w[a] - w[b]) / kT
-                    r = abs(math.log(RR[a, b] / RR[b, a]) - x) / (1e-6 * (1 + abs(x)))
+                # (a slow uphill partner of a resolved downhill rate is part of the relation however small it is,
+                #  as long as it is representable)
+                x = -(w[a] - w[b]) / kT
+                if RR[b, a] > 1e-12 * sc and (RR[a, b] > 1e-12 * sc or (x < 0 and RR[b, a] * math.exp(max(x, -700.0)) > 1e-250)):
+                    if RR[a, b] > 0:
+                        r = abs(math.log(RR[a, b] / RR[b, a]) - x) / (1e-6 * (1 + abs(x)))
+                    else:
+                        r = float("inf")
                     if r > worst:
                         worst, wdet = r, (a, b, RR[a, b], RR[b, a], x)
         ctx.check("redfield-detailed-balance", worst, 1.0, dict(det, worst=wdet))
